@@ -1,6 +1,9 @@
 pub mod epoch;
 pub mod swapmath;
 pub mod mintmath;
+pub mod farmmath;
+pub mod hist;
+pub mod hist_gen;
 
 use crate::Out;
 
@@ -9,6 +12,8 @@ pub fn run(stream: &str, seed: u64, cases: u64, replay: Option<&str>, o: &mut Ou
         "epoch" => epoch::run(seed, cases, replay, o),
         "swapmath" => swapmath::run(seed, cases, replay, o),
         "mintmath" => mintmath::run(seed, cases, replay, o),
+        "farmmath" => farmmath::run(seed, cases, replay, o),
+        "pm_hist" | "fm_hist" => hist_gen::run(stream, seed, cases, replay, o),
         _ => return false,
     }
     true
